@@ -75,6 +75,8 @@ class Kit(object):
         if permute:
             adds = self._permute_adds(adds, rng)
         for a in adds:
+            if m == "M-XF" and permute and isinstance(a.get("checksums"), dict) and len(a["checksums"]) > 1:
+                a["ck_order"] = rng.randrange(1 << 30)
             ops.append(_sl(a, slot))
         return ops
 
